@@ -736,6 +736,9 @@ func ruleNoSemiHazards(c *Ctx, t *tables, g *grammarModel) {
 		for _, f := range c.libFunctions() {
 			allInstrs(f, func(_ *ssa.BasicBlock, _ int, in ssa.Instruction) {
 				if ci, ok := in.(ssa.CallInstruction); ok && ci.Common().StaticCallee() == sg.closer {
+					if closerCallerOK(c, f, 0) {
+						return
+					}
 					if forwardsByteTo(f, sg.closer) {
 						// a forwarder: judged at its own callers
 						for _, g2 := range c.libFunctions() {
@@ -1078,4 +1081,51 @@ func derivesFromSplitElement(v ssa.Value) bool {
 			return cal != nil && pkgPathOf(cal) == "strings" && strings.HasPrefix(cal.Name(), "Split")
 		})
 	})
+}
+
+// isTextWriterFn: an exported method of the writer that hands its own (string / rune) parameter on to a function of
+// the package — the methods printers write token text with.
+func isTextWriterFn(f *ssa.Function) bool {
+	if f == nil || f.Signature.Recv() == nil || !namedIs(f.Signature.Recv().Type(), "ast", "CodeWriter") || len(f.Params) != 2 || f.Object() == nil || !f.Object().Exported() {
+		return false
+	}
+	b, ok := f.Params[1].Type().Underlying().(*types.Basic)
+	if !ok || (b.Info()&types.IsString == 0 && b.Kind() != types.Int32) {
+		return false
+	}
+	hit := false
+	allInstrs(f, func(_ *ssa.BasicBlock, _ int, in ssa.Instruction) {
+		if call, ok := in.(*ssa.Call); ok {
+			if cal := call.Call.StaticCallee(); cal != nil && cal.Pkg == f.Pkg && len(call.Call.Args) == 2 && call.Call.Args[1] == ssa.Value(f.Params[1]) {
+				hit = true
+			}
+		}
+	})
+	return hit
+}
+
+// closerCallerOK: f may consult the omitted-semicolon closer — it is a text writer, or a private piece of their
+// prologue that nothing but text writers (or other such pieces) calls.
+func closerCallerOK(c *Ctx, f *ssa.Function, depth int) bool {
+	if isTextWriterFn(f) {
+		return true
+	}
+	if depth > 2 || f.Object() == nil || f.Object().Exported() || f.Signature.Recv() == nil || !namedIs(f.Signature.Recv().Type(), "ast", "CodeWriter") {
+		return false
+	}
+	if _, closed := c.argsAtCallers(f, 0); !closed {
+		return false
+	}
+	all, any := true, false
+	for _, g := range c.libFunctions() {
+		allInstrs(g, func(_ *ssa.BasicBlock, _ int, in ssa.Instruction) {
+			if ci, ok := in.(ssa.CallInstruction); ok && ci.Common().StaticCallee() == f {
+				any = true
+				if !closerCallerOK(c, g, depth+1) {
+					all = false
+				}
+			}
+		})
+	}
+	return all && any
 }
